@@ -55,19 +55,23 @@ structure TagBlock where
 def COLON : Byte := 58
 def DASH : Byte := 45
 
-/-- characters for which the model of `int(str)` is exact: printable ASCII and ASCII whitespace -/
-def plainAscii (s : Bytes) : Bool := s.all fun b => (32 ≤ b && b < 127) || (9 ≤ b && b ≤ 13)
+/-- `int(str)` on the UTF-8 bytes of a Python `str`: like `int(bytes)` but the separator controls
+0x1c–0x1f also count as surrounding whitespace; text with non-ASCII characters is rejected
+(Python would additionally accept non-ASCII decimal digits and Unicode spaces, e.g. `'١٢'`; the
+harness never generates those — DESIGN §3). -/
+def strSpaceToAscii (s : Bytes) : Bytes := s.map fun b => if 0x1c ≤ b ∧ b ≤ 0x1f then 32 else b
 
-/-- `TagBlockGroup.from_str(val)`; outer `none` = `ValueError` (field skipped); members with
-characters outside plain ASCII are outside the modelled domain -/
-def groupFromStr (val : Bytes) : Except Err (Option TBGroup) :=
+def pyIntStr10 (s : Bytes) : Option Int := if s.any (· ≥ 128) then none else pyInt10 (strSpaceToAscii s)
+def pyIntStr16 (s : Bytes) : Option Int := if s.any (· ≥ 128) then none else pyInt16 (strSpaceToAscii s)
+
+/-- `TagBlockGroup.from_str(val)`; `none` = `ValueError` (the field is skipped) -/
+def groupFromStr (val : Bytes) : Option TBGroup :=
   match split DASH val with
   | [a, b, c] =>
-    if ¬ (plainAscii a ∧ plainAscii b ∧ plainAscii c) then .error .outsideModel
-    else match pyInt10 a, pyInt10 b, pyInt10 c with
-      | some a, some b, some c => .ok (some { num := a, tot := b, gid := c })
-      | _, _, _ => .ok none
-  | _ => .ok none
+    match pyIntStr10 a, pyIntStr10 b, pyIntStr10 c with
+    | some a, some b, some c => some { num := a, tot := b, gid := c }
+    | _, _, _ => none
+  | _ => none
 
 /-- one comma field of `_parse_payload` -/
 def tbField (codes : List (String × Nat)) (tb : TagBlock) (field : Bytes) : Except Err TagBlock :=
@@ -76,8 +80,8 @@ def tbField (codes : List (String × Nat)) (tb : TagBlock) (field : Bytes) : Exc
     match split1 COLON field with
     | (_, none) => .ok tb                                 -- no ':' → ValueError: skipped
     | (spec, some val) =>
-      if spec = [103] then do                             -- 'g'
-        match ← groupFromStr val with
+      if spec = [103] then                                -- 'g'
+        match groupFromStr val with
         | some g => .ok { tb with group := some g }
         | none => .ok tb
       else
@@ -101,9 +105,8 @@ def tbInit (codes : List (String × Nat)) (raw : Bytes) : Except Err TagBlock :=
   | [payload, check] =>
     if payload.isEmpty then .error .typeError           -- reduce(xor, b'')
     else if ¬ utf8Valid check then .error .unicodeDecodeError
-    else if ¬ plainAscii check then .error .outsideModel -- int(str, 16) on non-ASCII text
     else
-      match pyInt16 check with
+      match pyIntStr16 check with
       | none => .error .valueError
       | some e =>
         let a := xorAll payload
